@@ -139,6 +139,40 @@ example : let l0 : List Vec3 := [(0,0,0), (1,0,0), (-1,0,0)]
           mergeR [l0, l1, l2] = [(0,0,0), (1,0,0), (-1,0,0), (0,2,1), (0,-2,-1), (5,5,5)] ∧
           rmap (mergeR [l0, l1, l2]) l2 = [4, 1, 5] := by decide +kernel
 
+/-! ## T6  each spin channel is Fourier-summed with its own R list (order-independent) -/
+
+theorem chanSum_eq_sum [CommRing K] (phase : Vec3 → K) : ∀ (Rs : List Vec3) (xs : List K),
+    chanSum phase Rs xs = ((Rs.zip xs).map (fun p => phase p.1 * p.2)).sum
+  | [], _ => by simp [chanSum]
+  | _ :: _, [] => by simp [chanSum]
+  | R :: Rs, x :: xs => by simp [chanSum, chanSum_eq_sum phase Rs xs]
+
+/-- T6a.  H(k) of a channel depends only on the multiset of pairs (R_i, X_i): a simultaneous permutation of the R list
+    and the matrix list does not change it - so the up and down lists may be ordered independently of each other. -/
+theorem chanSum_perm [CommRing K] (phase : Vec3 → K) (Rs Rs' : List Vec3) (xs xs' : List K)
+    (h : (Rs.zip xs).Perm (Rs'.zip xs')) : chanSum phase Rs xs = chanSum phase Rs' xs' := by
+  rw [chanSum_eq_sum, chanSum_eq_sum]
+  exact (h.map _).sum_eq
+
+/-- T6b.  Summing the down matrices with the UP list (shared-object rule) is correct when the two lists are identical. -/
+theorem downShared_eq_of_same_list [CommRing K] (phase : Vec3 → K) (Rs : List Vec3) (Xdn : List K) :
+    downShared phase Rs Rs Xdn = downOwn phase Rs Rs Xdn := by
+  simp [downShared, downOwn]
+
+/-- T6c.  … and wrong otherwise, already for lists of equal length: (i) the same set in another order, (ii) another set
+    of the same size.  Phases ±1 = exp(2πi k·R) at k = (1/2, 0, 0). -/
+theorem downShared_wrong_for_equal_length :
+    let phase : Vec3 → Rat := fun R => if R.1 % 2 = 0 then 1 else -1
+    (downShared phase [(0, 0, 0), (1, 0, 0)] [(1, 0, 0), (0, 0, 0)] [1, 2]
+        ≠ downOwn phase [(0, 0, 0), (1, 0, 0)] [(1, 0, 0), (0, 0, 0)] [1, 2]) ∧
+    (downShared phase [(0, 0, 0), (1, 0, 0)] [(0, 0, 0), (2, 0, 0)] [1, 2]
+        ≠ downOwn phase [(0, 0, 0), (1, 0, 0)] [(0, 0, 0), (2, 0, 0)] [1, 2]) := by
+  decide +kernel
+
+/-- non-vacuity of T6a: the pairs in another order -/
+example : chanSum (fun R : Vec3 => ((R.1 : Int) : Rat)) [(1, 0, 0), (2, 0, 0)] [3, 5]
+    = chanSum (fun R : Vec3 => ((R.1 : Int) : Rat)) [(2, 0, 0), (1, 0, 0)] [5, 3] := by decide +kernel
+
 /-! ## T4  rotated Pauli matrices -/
 
 variable [Field K] {conj : K →+* K} {I c s e : K}
